@@ -72,8 +72,11 @@ NEG = {
     "C18": [("generators-upper-bound-only", "Generators", dict(N=3, P=1, MaxK=1, Check="upper_only", Emit=False, NSlices=1, Slice=0),
              ["RaisesIffInconsistent", "NoSilentWrap"], "Init", None)],
 }
+from .costparams import NEG as _cp_neg  # noqa: E402
+
+NEG["C01"] = NEG["C01"] + _cp_neg
 # properties decided through another property's model
-NEG["C06"] = NEG["C01"][1:]
+NEG["C06"] = NEG["C01"][1:3]
 NEG["C16"] = [NEG["C03"][1]]
 NEG["C04"] = [NEG["C03"][3]]
 NEG["C12"] = [NEG["C08"][0]]
